@@ -31,6 +31,7 @@ RULES_DOC = {
     "R16": "impl header replaced by the one given in the contract store (adds the bound `P: Prefix` where the source impl is unbounded; the contract is meaningless for other P)",
     "R17": "crate-internal module path prefixes dropped (the unit is a single flat module)",
     "R18": "`unsafe { e }` -> `{ e }` and `unsafe fn` -> `fn` (markers only)",
+    "R12": "`a.mask().cmp(&b.mask())` -> `a.mask_cmp(b)`, `a.mask() < b.mask()` -> `a.mask_lt(b)` (contract methods of the Prefix trait; their order contract is discharged by the Kani harness mask_order)",
     "R11": "`vec![a, b]` -> `vec2(a, b)`-style helper calls with vstd-verified bodies (speclib/std_specs.rs)",
 }
 
@@ -190,7 +191,7 @@ def rewrite_R3(text):
             if nm != "_" and nm != "":
                 s += " %s = %s.%d;" % (nm, tv, i)
         return s
-    return re.sub(r"(^|[;{}]\s*|\n\s*)\(([A-Za-z_][A-Za-z0-9_]*\s*(?:,\s*[A-Za-z_][A-Za-z0-9_]*\s*)*)\)\s*=\s*([^;=][^;]*);",
+    return re.sub(r"(^|[;{}]\s*|\n\s*)\(([A-Za-z_][A-Za-z0-9_]*\s*(?:,\s*[A-Za-z_][A-Za-z0-9_]*\s*)*)\)\s*=\s*([^;=>][^;]*);",
                   repl, text)
 
 def rewrite_R8(text):
@@ -346,6 +347,13 @@ def rewrite_R17(text):
 def rewrite_R18(text):
     """`unsafe { e }` -> `{ e }`  (the marker has no run-time meaning; obligations of the callee are checked as usual)"""
     return re.sub(r"\bunsafe\s*\{", "{", text)
+
+def rewrite_R12(text):
+    """comparisons of masks go through the contract methods mask_cmp / mask_lt (`Self::R: PrimInt` has no Verus model)"""
+    text = re.sub(r"([A-Za-z_][A-Za-z0-9_]*)\.mask\(\)\.cmp\(&([A-Za-z_][A-Za-z0-9_]*)\.mask\(\)\)", r"\1.mask_cmp(\2)", text)
+    text = re.sub(r"([A-Za-z_][A-Za-z0-9_]*)\.mask\(\)\s*<\s*([A-Za-z_][A-Za-z0-9_]*)\.mask\(\)", r"\1.mask_lt(\2)", text)
+    text = text.replace("std::cmp::Ordering::", "core::cmp::Ordering::")
+    return text
 
 def rewrite_R2(text):
     text = re.sub(r"unsafe\s*\{\s*([A-Za-z_\.]+(?:\.as_ref\(\)\?)?)\s*\.get_mut\(\s*([^)]*?)\s*\)\s*\}", r"&\1.0[\2]", text)
@@ -688,7 +696,7 @@ def emit_fn(out, u, fs, rules_used):
     if t2 != text1: rules_used.add("R7")
     text1 = t2
     r1 = (lambda t: t) if fs.opts.get("table_is_vec") else (lambda t: rewrite_R1(t, in_table_impl))
-    for rule, fnr in (("R1", r1), ("R3", rewrite_R3), ("R8", rewrite_R8), ("R10", rewrite_R10), ("R14", rewrite_R14), ("R11", rewrite_R11), ("R17", rewrite_R17)):
+    for rule, fnr in (("R1", r1), ("R3", rewrite_R3), ("R8", rewrite_R8), ("R10", rewrite_R10), ("R14", rewrite_R14), ("R11", rewrite_R11), ("R17", rewrite_R17), ("R12", rewrite_R12)):
         t2 = fnr(text1)
         if t2 != text1: rules_used.add(rule)
         text1 = t2
